@@ -91,7 +91,8 @@ def draw_pvs(rng, n):
         out.append({"depth": d, "fan": rng.choice([1, 2]), "same": rng.random() < 0.4, "wrap": wrap, "nest": nest,
                     "split": split, "xtype": rng.choice(["Real", "Integer", "Boolean", "aR", "aI", "aB", "aaR"]),
                     "xdims": rng.choice([0, 0, 1, 2]), "xpre": rng.choice(pre), "ypre": rng.choice(pre),
-                    "ieq": rng.random() < 0.5, "attr": "", "mods": []})
+                    "ieq": rng.random() < 0.5, "attr": "", "mods": [],
+                    "clash": rng.random() < 0.3, "shadow": rng.random() < 0.3})
     return out
 
 
@@ -114,7 +115,7 @@ def run(ctx):
     # vacuity: every dimension of the family must have been exercised
     need = ["depth1", "depth2", "depth3", "fan2", "same", "wrap0", "wrap1", "wrap2", "wrap3", "nest-user", "nest-userbase",
             "xtype-aR", "xtype-aI", "xtype-aB", "xtype-aaR", "xtype-Integer", "xtype-Boolean", "xdims1", "xdims2",
-            "xpre-input", "xpre-output", "xpre-parameter", "xpre-flow", "ypre-input", "ypre-output", "ieq"] + \
+            "xpre-input", "xpre-output", "xpre-parameter", "xpre-flow", "ypre-input", "ypre-output", "ieq", "clash", "shadow"] + \
            ["split%d-%s" % (i, m) for i in (1, 2, 3) for m in ("one", "late", "chain", "multi")]
     if thorough:
         need += ["depth4", "xpre-constant", "xpre-discrete"]
